@@ -392,6 +392,13 @@ class Parser:
     def parse_prefix_expression(self, stream: TokenStream) -> Expression:
         tok = stream.next_token()
         assert tok.type_ == TokenType.NOT
+
+        # `!!` is never valid. Fail now rather than recursing once per `!`.
+        if stream.current.type_ == TokenType.NOT:
+            raise JSONPathSyntaxError(
+                "unexpected operand for logical not", token=stream.current
+            )
+
         right = self.parse_filter_expression(stream, precedence=self.PRECEDENCE_PREFIX)
 
         # Logical not applies to a query, a function call or a parenthesized
